@@ -51,11 +51,22 @@ type Contract struct {
 	Steps    map[int][]*Clause // loop ordinal → two-state clauses checked at back edges
 	Stable   map[string]bool   // ensures labels assumed by the spawner after the join
 	Before   map[string][]*Clause // callee name → assertions checked in the state just before each call of it
+	OnUnlock []ghostUpd           // ghost updates performed when this function releases a monitor (auxiliary code)
+	AtUnlock []*Clause            // guarantee checked at every release of a monitor by this function (atlock(e) = e at acquisition)
+	Contrib  map[string]int       // counter ghost → total amount one execution of this function adds to it
+}
+
+// ghostUpd: NAME += EXPR at the release of monitor Mutex.
+type ghostUpd struct {
+	Mutex string
+	Name  string
+	Expr  *Clause
 }
 
 type ghostDecl struct {
 	Name string
 	Sort string
+	Init string // "NAME SORT = V": local auxiliary variable of the declaring function, initialised to V
 }
 
 type Monitor struct {
@@ -124,7 +135,7 @@ func (w *World) parseContracts(pkgs []*packages.Package) error {
 	return nil
 }
 
-var keywords = map[string]bool{"func": true, "before": true, "closure": true, "assume": true, "requires": true, "ensures": true, "modifies": true, "loop": true,
+var keywords = map[string]bool{"func": true, "before": true, "onunlock": true, "atunlock": true, "contributes": true, "closure": true, "assume": true, "requires": true, "ensures": true, "modifies": true, "loop": true,
 	"safety": true, "ghost": true, "monitor": true, "inv": true, "spawn": true, "pure": true, "note": true, "cover": true, "lemma": true, "iface": true, "noinline": true, "trusted": true, "inline": true, "stable": true}
 
 func firstWord(s string) string {
@@ -232,6 +243,38 @@ func (w *World) parseContractLines(sp *ssa.Package, lines, poss []string) error 
 				return err
 			}
 			cur.Loops[ord] = append(cur.Loops[ord], cl)
+		case "onunlock":
+			// onunlock MU ghost NAME += EXPR
+			f := strings.Fields(rest)
+			if len(f) < 5 || f[1] != "ghost" || f[3] != "+=" {
+				return fmt.Errorf("%s: onunlock MU ghost NAME += EXPR", pos)
+			}
+			cl, err := parseClause("invariant[upd."+f[2]+"] "+strings.Join(f[4:], " "), pos)
+			if err != nil {
+				return err
+			}
+			cur.OnUnlock = append(cur.OnUnlock, ghostUpd{Mutex: f[0], Name: f[2], Expr: cl})
+		case "atunlock":
+			cl, err := parseClause("invariant"+strings.TrimPrefix(l, "atunlock"), pos)
+			if err != nil {
+				return err
+			}
+			cur.AtUnlock = append(cur.AtUnlock, cl)
+			cur.Verify = true
+		case "contributes":
+			f := strings.Fields(rest)
+			var n int
+			if len(f) != 2 {
+				return fmt.Errorf("%s: contributes NAME N", pos)
+			}
+			if _, err := fmt.Sscanf(f[1], "%d", &n); err != nil {
+				return fmt.Errorf("%s: contributes NAME N", pos)
+			}
+			if cur.Contrib == nil {
+				cur.Contrib = map[string]int{}
+			}
+			cur.Contrib[f[0]] = n
+			cur.Verify = true
 		case "before":
 			// before CALLEE assert[label] EXPR: checked in the caller's state right before every call of CALLEE
 			f := strings.SplitN(rest, " ", 2)
@@ -283,7 +326,12 @@ func (w *World) parseContractLines(sp *ssa.Package, lines, poss []string) error 
 			if len(f) < 2 {
 				return fmt.Errorf("%s: ghost NAME SORT", pos)
 			}
-			cur.Ghosts = append(cur.Ghosts, ghostDecl{Name: f[0], Sort: strings.Join(f[1:], " ")})
+			gd := ghostDecl{Name: f[0], Sort: strings.Join(f[1:], " ")}
+			if i := strings.Index(gd.Sort, "="); i >= 0 {
+				gd.Init = strings.TrimSpace(gd.Sort[i+1:])
+				gd.Sort = strings.TrimSpace(gd.Sort[:i])
+			}
+			cur.Ghosts = append(cur.Ghosts, gd)
 		case "monitor":
 			// monitor MU protects a, b, c
 			parts := strings.SplitN(rest, "protects", 2)
